@@ -333,11 +333,13 @@ func ip6(words ...uint16) tv {
 
 const hour = int64(3600) * 1_000_000_000
 
-func ok(name string, j any, t tv) val    { return val{Name: name, JSON: j, Conv: convOK, T: t} }
-func plain(name string, j any, t tv) val { return val{Name: name, JSON: j, Conv: convOK, T: t, Plain: true} }
-func bad(name string, j any) val         { return val{Name: name, JSON: j, Conv: convBad} }
-func th(v val) val                       { v.Thorough = true; return v }
-func clamp(v val, t tv) val              { v.Clamp = &t; return v }
+func ok(name string, j any, t tv) val { return val{Name: name, JSON: j, Conv: convOK, T: t} }
+func plain(name string, j any, t tv) val {
+	return val{Name: name, JSON: j, Conv: convOK, T: t, Plain: true}
+}
+func bad(name string, j any) val { return val{Name: name, JSON: j, Conv: convBad} }
+func th(v val) val               { v.Thorough = true; return v }
+func clamp(v val, t tv) val      { v.Clamp = &t; return v }
 
 // alphabet returns the context-value classes of a parameter type (without "absent").
 func alphabet(k kind, thorough bool) []val {
